@@ -73,7 +73,7 @@ func runWedge(c *Ctx) {
 	ctx := context.Background()
 
 	// one burst on a fresh node. modifier=false: partitions list node 99 first (this node cannot modify them).
-	burst := func(label string, r *Rng, modifier bool, witness bool) {
+	burst := func(label string, r *Rng, modifier bool, witness bool, script ...string) {
 		c.Begin(label)
 		defer c.End()
 		cl := newSimCluster(1)
@@ -98,7 +98,7 @@ func runWedge(c *Ctx) {
 		nextNode := uint64(100)
 		var joined []uint64
 		steps := 6 + r.Intn(c.Pick(14, 30))
-		if witness {
+		if witness || len(script) > 0 {
 			steps = 0
 		}
 		conf := func() {
@@ -143,12 +143,42 @@ func runWedge(c *Ctx) {
 					events = append(events, "w")
 				}
 			case k < 6 && len(live) > 0:
-				// a replica-set change naming a node other than this one (the loop is not involved)
+				// a replica-set change: naming another node (the loop is not involved), or naming this
+				// node for a partition it hosts already - what a restart replays for a node that was
+				// added to the partition after its creation: the partition is loaded a second time
 				d := live[r.Intn(len(live))]
-				push(addNodeEntry(d.id, d.pids[r.Intn(len(d.pids))], 98))
+				if r.Intn(2) == 0 {
+					push(addNodeEntry(d.id, d.pids[r.Intn(len(d.pids))], 98))
+				} else {
+					push(addNodeEntry(d.id, d.pids[r.Intn(len(d.pids))], 1))
+					c.Nontrivial("reload-of-loaded-partition")
+				}
 				c.Nontrivial("replica-set-change")
 			default:
 				conf()
+			}
+		}
+		for _, ev := range script { // corpus bursts
+			switch ev {
+			case "create":
+				create(2)
+			case "reload":
+				d := live[len(live)-1]
+				push(addNodeEntry(d.id, d.pids[0], 1))
+				c.Nontrivial("reload-of-loaded-partition")
+			case "delete":
+				d := live[len(live)-1]
+				live = live[:len(live)-1]
+				push(deleteEntry(d.id))
+				for range d.pids {
+					events = append(events, "w")
+				}
+			case "conf":
+				conf()
+			case "settle":
+				cnt := nEvents
+				waitFor(3*time.Second, func() bool { return n.group.Applied() >= cnt })
+				time.Sleep(50 * time.Millisecond)
 			}
 		}
 		if witness {
@@ -181,6 +211,21 @@ func runWedge(c *Ctx) {
 		if done && probeOK {
 			observed = "drained"
 		}
+		// keeps serving: every partition of every live dataset is hosted here, so its raft group must be loaded
+		if done && probeOK && !witness {
+			for _, dsr := range live {
+				d := cl.dataset(1, dsr.id)
+				if d == nil {
+					continue
+				}
+				for pi := 0; pi < d.VerifPartitionCount(); pi++ {
+					p := d.VerifPartitionAt(pi)
+					if !waitFor(3*time.Second, func() bool { return p.HasRaft() }) {
+						c.Violate("C18", "C18/partition-not-serving", fmt.Sprintf("after the burst the node hosts partition %d of a live dataset (replicas %v) but has no raft group loaded for it: writes to it are refused from now on", pi, p.NodeIds()), c.History())
+					}
+				}
+			}
+		}
 		// the model explores every schedule of this event list in this situation and says whether the
 		// observed outcome is one it allows (a wedge is allowed only if a stuck state is reachable)
 		c.Op("wedge 10 0 %d 0 %s %s", b2i(modifier), strings.Join(events, ""), observed)
@@ -205,6 +250,44 @@ func runWedge(c *Ctx) {
 	_ = ctx
 	for b := 0; b < nb; b++ {
 		burst("burst", rng.Fork(), false, false)
+	}
+	// corpus: a partition that is loaded, loaded again (replayed replica-set change), then unloaded
+	burst("corpus load, reload, unload", rng.Fork(), false, false, "create", "settle", "reload", "settle", "delete", "settle", "create", "reload", "conf", "delete")
+	// corpus: restart of a node that was added to a partition after the dataset was created. The
+	// replay delivers the creation (the allocator is told to watch the partition) and then the
+	// replica-set change naming this node (the partition loads its raft group at once); when the
+	// allocator's loop gets to the watch it finds the node assigned and loads the partition again.
+	{
+		c.Begin("corpus restart of a replica added after creation")
+		cl := newSimCluster(2)
+		cl.enableCrashes()
+		dsId, err := cl.createDataset(1, 2, 1, 1, pb.Space_Euclidean)
+		if err == nil {
+			d := cl.dataset(1, dsId)
+			host := d.VerifPartitionAt(0).NodeIds()[0]
+			other := uint64(3) - host
+			cl.nodes[1].group.Propose(ctx, addNodeEntry(dsId, d.VerifPartitionAt(0).Id(), other))
+			ok := waitFor(5*time.Second, func() bool { return cl.dataset(other, dsId).VerifPartitionAt(0).HasRaft() })
+			c.OpLocal("dataset with one partition on node %d; replica-set change adds node %d; loaded there: %v", host, other, ok)
+			for i := 0; i < 3 && ok; i++ {
+				cl.nodes[other].ctl.kill()
+				if _, err := cl.restartNode(other); err != nil {
+					c.Violate("C18", "C18/restart-fails", err.Error(), c.History())
+					break
+				}
+				time.Sleep(300 * time.Millisecond)
+				c.OpLocal("restart %d of node %d", i+1, other)
+				if !waitFor(3*time.Second, func() bool { return cl.dataset(other, dsId).VerifPartitionAt(0).HasRaft() }) {
+					c.Violate("C18", "C18/partition-not-serving", fmt.Sprintf("node %d restarted with an existing dataset whose partition lists it as a replica (added after creation): after the catalogue replay it has no raft group loaded for the partition and refuses writes to it", other), c.History())
+					break
+				}
+			}
+			c.Nontrivial("restart-replay")
+		} else {
+			c.Note("corpus restart: create failed: %v", err)
+		}
+		cl.Close()
+		c.End()
 	}
 	// corpus: D19 witness (known finding)
 	burst("corpus-D19 modifier of an under-replicated partition: join, then create", rng.Fork(), true, true)
